@@ -18,6 +18,13 @@ type checkDef struct {
 	Assumptions  []string
 	RealStub     map[string]string
 	MustProbe    []string
+	Also         []also // facets of the property that live in another engine
+}
+
+type also struct {
+	Engine  string
+	Workers int
+	Why     string
 }
 
 var layerAReal = map[string]string{
@@ -61,15 +68,19 @@ var checks = []checkDef{
 		Rule: layerBRule, Assumptions: layerBAssume, RealStub: layerBReal,
 		MustProbe: []string{"one_shell_ready", "one_shell_finished", "refused_over_http", "io_sessions", "lines_over_http"}},
 	{ID: "C01", Engine: "brokersim", Level: "exploration", QuickMS: 40000, ThoroughMS: 600000, SelftestRuns: 200,
+		Also: []also{{Engine: "hsrvsim", Workers: 4, Why: "the same property observed through the real net/http server, chunked encoding and TLS (refused attempts end at once and get nothing, lines reach the client at the quiescent point, output displayed byte-exact, peer stream ended)"}},
 		Rule: layerARule, StateMeasure: layerAStates, Assumptions: layerAAssume, RealStub: layerAReal,
 		MustProbe: []string{"attempt_in_teardown_window", "attempt_in_shutdown", "refused_refuse", "teardown_window_entered"}},
 	{ID: "C02", Engine: "brokersim", Level: "exploration", QuickMS: 40000, ThoroughMS: 600000, SelftestRuns: 200,
+		Also: []also{{Engine: "hsrvsim", Workers: 3, Why: "the same property observed through the real net/http server, chunked encoding and TLS (refused attempts end at once and get nothing, lines reach the client at the quiescent point, output displayed byte-exact, peer stream ended)"}, {Engine: "termsim", Workers: 2, Why: "typed lines and Ctrl+I inserts (multi-line payload as exactly one entry) through the real line editor onto the input channel"}},
 		Rule: layerARule, StateMeasure: layerAStates, Assumptions: layerAAssume, RealStub: layerAReal,
 		MustProbe: []string{"lines_delivered", "line_lost_to_own_error", "line_64k", "line_multiline", "write_err", "flush_err", "write_short"}},
 	{ID: "C03", Engine: "brokersim", Level: "exploration", QuickMS: 40000, ThoroughMS: 600000, SelftestRuns: 200,
+		Also: []also{{Engine: "hsrvsim", Workers: 4, Why: "the same property observed through the real net/http server, chunked encoding and TLS (refused attempts end at once and get nothing, lines reach the client at the quiescent point, output displayed byte-exact, peer stream ended)"}},
 		Rule: layerARule, StateMeasure: layerAStates, Assumptions: layerAAssume, RealStub: layerAReal,
 		MustProbe: []string{"output_ended_by_itself", "data_with_terminal_error", "read_burst_over_2k", "read_zero_len", "cancel_under_flood_stalled"}},
 	{ID: "C04", Engine: "brokersim", Level: "exploration", QuickMS: 40000, ThoroughMS: 600000, SelftestRuns: 200,
+		Also: []also{{Engine: "hsrvsim", Workers: 4, Why: "the same property observed through the real net/http server, chunked encoding and TLS (refused attempts end at once and get nothing, lines reach the client at the quiescent point, output displayed byte-exact, peer stream ended)"}},
 		Rule: layerARule, StateMeasure: layerAStates, Assumptions: layerAAssume, RealStub: layerAReal,
 		MustProbe: []string{"generations", "cancel_under_flood_stalled", "teardown_window_entered", "shutdown", "input_closed", "client_cancel"}},
 	{ID: "C06", Engine: "brokersim", Level: "exploration", QuickMS: 40000, ThoroughMS: 600000, SelftestRuns: 200,
@@ -77,31 +88,32 @@ var checks = []checkDef{
 		StateMeasure: layerAStates, Assumptions: layerAAssume, RealStub: layerAReal,
 		MustProbe: []string{"enum_cases", "io_shell_ready", "io_attempts"}},
 	{ID: "C14", Engine: "cmdshellsim", Level: "exploration", Workers: 8, GOMAXPROCS: 2, QuickMS: 40000, ThoroughMS: 600000, SelftestRuns: 100,
-		Rule: "one evaluation = one real child process run through simpleshell.CmdShell under a generated plan: the child is a puppet (the worker binary re-executed) that writes counted patterns to stdout/stderr, closes descriptors, reads stdin to EOF, waits on observed states and exits with a chosen code; the input reader and the consumer of Output() follow seeded chunk sizes and gates on observed states (child reaped, Go returned, input done), never on sleeps; distinct = hash of the plan; non-trivial = the plan has a gate, a child-side wait, a non-zero exit or more than 4096 bytes of traffic. A plan that shows a violation is run four more times to tell a plan that always fails from an intermittent one",
+		Rule:        "one evaluation = one real child process run through simpleshell.CmdShell under a generated plan: the child is a puppet (the worker binary re-executed) that writes counted patterns to stdout/stderr, closes descriptors, reads stdin to EOF, waits on observed states and exits with a chosen code; the input reader and the consumer of Output() follow seeded chunk sizes and gates on observed states (child reaped, Go returned, input done), never on sleeps; distinct = hash of the plan; non-trivial = the plan has a gate, a child-side wait, a non-zero exit or more than 4096 bytes of traffic. A plan that shows a violation is run four more times to tell a plan that always fails from an intermittent one",
 		Assumptions: []string{"real kernel processes and pipes: not a simulation; the verdict of the oracle is schedule-independent, so a miss is possible but a false alarm is not", "Linux /proc and FIONREAD on pipes; kernel pipe buffer >= 64 KiB (plans keep un-consumed output below 60000 bytes when the consumer waits for the child's exit)", "not bit-replayable: the replay file is the plan and reproduces through its observed-state gates"},
 		RealStub:    map[string]string{"real": "simpleshell.CmdShell (NewCmdShell, SetInput, Output, Go), os/exec, kernel process, pipes and scheduler", "stub": "the child (puppet following a plan), the input reader and the consumer (harness code following the plan)"},
 		MustProbe:   []string{"consumer_after_reap", "over_pipe_buffer", "exit_nonzero", "stderr_only", "zero_output", "child_reads_input_to_eof"}},
 	{ID: "C17", Engine: "fssim", Level: "exploration", QuickMS: 30000, ThoroughMS: 300000, SelftestRuns: 500,
-		Rule: "one evaluation = one generated case: a directory tree in a simulated fs.FS (regular files, sub-directories, valid and dangling symlinks, named pipes; names with spaces, glob characters, leading dots, several extensions, editor lock/backup names), a filter table (default and user-modified, marker filters so that the first matching pattern is visible), a per-entry fault plan (Stat/Open/Read errors, short reads) and 1-3 Converter.From calls, each made twice; one run in eight materialises the tree in a real temporary directory for the FS==nil path; distinct = hash of configuration and items; non-trivial = some judged call has at least two parts, an ineligible top-level entry or several sources",
+		Rule:        "one evaluation = one generated case: a directory tree in a simulated fs.FS (regular files, sub-directories, valid and dangling symlinks, named pipes; names with spaces, glob characters, leading dots, several extensions, editor lock/backup names), a filter table (default and user-modified, marker filters so that the first matching pattern is visible), a per-entry fault plan (Stat/Open/Read errors, short reads) and 1-3 Converter.From calls, each made twice; one run in eight materialises the tree in a real temporary directory for the FS==nil path; distinct = hash of configuration and items; non-trivial = some judged call has at least two parts, an ineligible top-level entry or several sources",
 		Assumptions: []string{"patterns are well-formed and contain no '/'; names are valid UTF-8", "valid symlinks to regular files are generated only under non-matching names (whether they count as regular files is not judged)", "dangling links under matching non-dot names, faults on the source directory itself and source directories whose own path contains glob characters are outside the statement's quantifier and not generated", "error text is read only to choose a finding's signature"},
 		RealStub:    map[string]string{"real": "shellfuncsfile.Converter (From, from, fromDirectory, fromSingleFile, fromReader, SetFilter), FromShell/FromPerl/GenFuncList where the defaults are kept, io/fs (Sub, Glob, Stat, ReadFile, ReadDir), os.DirFS in one run of eight", "stub": "the file system (in-memory fs.FS with per-entry faults), marker filters"},
 		MustProbe:   []string{}},
 	{ID: "C19", Engine: "termsim", Level: "exploration", QuickMS: 40000, ThoroughMS: 600000, SelftestRuns: 150,
-		Rule: "one evaluation = one simulated operator session (one synctest bubble): opshell.New on the worker's pty, Shell.Do and the line editor, with typed keys (Ctrl+O, Ctrl+I, Ctrl+J, lines), shell-output and status lines, fake-clock sleeps with extra mass at the two-second pause interval (+-0, 1 ns, 1 ms, measured from the last shell output), floods, several mute cycles; 30 % of runs are lock-order schedules in which goroutines are parked at the verif yield points before/after the shell's write lock and inside the Ctrl+O callback and released singly or all at once; distinct = hash of (configuration, action sequence); non-trivial = at least one Ctrl+O",
+		Rule:        "one evaluation = one simulated operator session (one synctest bubble): opshell.New on the worker's pty, Shell.Do and the line editor, with typed keys (Ctrl+O, Ctrl+I, Ctrl+J, lines), shell-output and status lines, fake-clock sleeps with extra mass at the two-second pause interval (+-0, 1 ns, 1 ms, measured from the last shell output), floods, several mute cycles; 30 % of runs are lock-order schedules in which goroutines are parked at the verif yield points before/after the shell's write lock and inside the Ctrl+O callback and released singly or all at once; distinct = hash of (configuration, action sequence); non-trivial = at least one Ctrl+O",
 		Assumptions: []string{"the mute model's clock is judged only in runs where nothing is parked; an exact tie between a shell-output arrival and the un-mute instant ends timing judgement for that run", "the un-mute announcement is recognised as a terminal write that happens by itself during a sleep and carries no harness token, never by its wording", "a deadlock verdict needs proof from two goroutine dumps 300 ms apart (nothing runnable in the bubble, two or more goroutines in sync.Mutex.Lock with opshell/goxterm frames, nothing parked by the simulator); anything else that is stuck is exit 2"},
 		RealStub:    map[string]string{"real": "lib/opshell (New on a real pty incl. raw mode, Do, handleOutput, writePlain, Logf, insert, the silence timer), goxterm line editor, time (bubble clock)", "stub": "the terminal's byte streams (VerifStdio seam), the operator channels' other ends, the order of lock acquisitions in lock-order runs (VerifYield)"},
 		MustProbe:   []string{"mute_cycles", "unmuted_by_calm", "announcement_seen", "plain_while_muted", "status_while_muted", "ctrl_o_while_muted", "grant_all", "parked_ctrlo", "ctrl_i"}},
 	{ID: "C20", Engine: "procsim", Level: "fault_enumeration", Workers: 8, GOMAXPROCS: 4, QuickMS: 240000, ThoroughMS: 600000, SelftestRuns: 30, Exhaustible: true,
-		Rule: "one evaluation = one real process of the binary built from /repo (no verif tag), started under a fresh pty (or in a new session without controlling terminal), with a set of injected start-up faults; every single fault of the classes {no TTY, listen address unparsable/unresolvable/in use, cache truncated/garbage/sections swapped/below a file/is a directory, log path is a directory/below a file, missing Ctrl+I source} and every non-contradicting pair, each with no informational flag, -print-default-template, -print-ctrl-i and -h, with and without a TTY, plus normal exits by Ctrl+C, Ctrl+D and completed -one-shell in six termios variants: enumerated completely in both tiers; non-trivial = at least one fault or a normal-exit scenario",
+		Rule:        "one evaluation = one real process of the binary built from /repo (no verif tag), started under a fresh pty (or in a new session without controlling terminal), with a set of injected start-up faults; every single fault of the classes {no TTY, listen address unparsable/unresolvable/in use, cache truncated/garbage/sections swapped/below a file/is a directory, log path is a directory/below a file, missing Ctrl+I source} and every non-contradicting pair, each with no informational flag, -print-default-template, -print-ctrl-i and -h, with and without a TTY, plus normal exits by Ctrl+C, Ctrl+D and completed -one-shell in six termios variants: enumerated completely in both tiers; non-trivial = at least one fault or a normal-exit scenario",
 		Assumptions: []string{"process level: the binary, kernel, pty, loopback TCP and file system are real; the scheduler half of the technique has nothing to control here", "start-up counts as finished when a sha256// token appears on the pty", "all waits are event-driven with a 60 s cap (cap hit = exit 2); only 'does not exit by itself within 30 s' is judged", "cache_dir_unwritable is not generated when running as root"},
 		RealStub:    map[string]string{"real": "the curlrevshell binary (package main, opshell incl. raw mode and restore, hsrv.New, sstls), kernel pty and line discipline, file system, loopback TCP/TLS", "stub": "nothing; a small Go TLS client plays the implant for the -one-shell exit"},
 		MustProbe:   []string{}},
 	{ID: "C08", Engine: "certdisk", Level: "fault_enumeration", QuickMS: 40000, ThoroughMS: 300000, SelftestRuns: 300,
-		Rule: "one evaluation = one case: a first boot (the real sstls.Listen) on an empty private root that creates the cache, then a list of history steps (boot, boot without cache, delete, restore, crash_prefix k, crash_zerotail k, corrupt offset/mask, crash_dirs n), every boot observed through a real TLS 1.3 handshake and judged (served identity, advertised fingerprint, file bytes/inode/mtime before and after, modes); enumerated completely in both tiers: nesting depths 0-4, every prefix length 0..1100 (>= every file length), zero-tail at 64-byte steps, single-byte corruption (quick: every 7th offset, mask 0x01; thorough: every offset x masks 0x01/0x20/0x80), every directory-chain prefix; the rest of the budget goes to seeded random histories of 2-8 steps; non-trivial = at least one damage fault actually landed",
+		Also:         []also{{Engine: "hsrvsim", Workers: 2, Why: "restart histories of the whole server over one cache file (with deletions): a boot that finds the cache in place serves the identity of the boot that created it"}},
+		Rule:         "one evaluation = one case: a first boot (the real sstls.Listen) on an empty private root that creates the cache, then a list of history steps (boot, boot without cache, delete, restore, crash_prefix k, crash_zerotail k, corrupt offset/mask, crash_dirs n), every boot observed through a real TLS 1.3 handshake and judged (served identity, advertised fingerprint, file bytes/inode/mtime before and after, modes); enumerated completely in both tiers: nesting depths 0-4, every prefix length 0..1100 (>= every file length), zero-tail at 64-byte steps, single-byte corruption (quick: every 7th offset, mask 0x01; thorough: every offset x masks 0x01/0x20/0x80), every directory-chain prefix; the rest of the budget goes to seeded random histories of 2-8 steps; non-trivial = at least one damage fault actually landed",
 		StateMeasure: "states = (cache or no-cache boot, file class intact/truncated/zero-tailed/corrupted/missing, boot ok/err, file result); transitions = (file class, operation)",
-		Assumptions: []string{"crash states are modelled as prefix, zero-tail, or only some directories existing; no reordered or partial-sector writes", "the cache bytes are made a function of the case by seeding crypto randomness (testing/cryptotest.SetGlobalRandom) and running under the bubble's fake clock", "umask 0 in the worker; identity = base64(sha256(RawSubjectPublicKeyInfo)) computed by the harness from the handshake"},
-		RealStub:    map[string]string{"real": "sstls.Listen, GetCertificate, LoadCachedCertificate, SaveCertificate, txtar, crypto/tls (both ends), x509; the file system under the worker's scratch directory", "stub": "transport under TLS (buffered in-memory pipe swapped in under the TLS listener; the real socket is closed unread), clock (synctest), crypto randomness (seeded), crash and corruption states (written by the harness)"},
-		MustProbe:   []string{"crash_prefix", "crash_zerotail", "corrupt_cert", "corrupt_key", "corrupt_header", "crash_dirs", "delete", "regenerated", "harmless_corruption_loaded"}},
+		Assumptions:  []string{"crash states are modelled as prefix, zero-tail, or only some directories existing; no reordered or partial-sector writes", "the cache bytes are made a function of the case by seeding crypto randomness (testing/cryptotest.SetGlobalRandom) and running under the bubble's fake clock", "umask 0 in the worker; identity = base64(sha256(RawSubjectPublicKeyInfo)) computed by the harness from the handshake"},
+		RealStub:     map[string]string{"real": "sstls.Listen, GetCertificate, LoadCachedCertificate, SaveCertificate, txtar, crypto/tls (both ends), x509; the file system under the worker's scratch directory", "stub": "transport under TLS (buffered in-memory pipe swapped in under the TLS listener; the real socket is closed unread), clock (synctest), crypto randomness (seeded), crash and corruption states (written by the harness)"},
+		MustProbe:    []string{"crash_prefix", "crash_zerotail", "corrupt_cert", "corrupt_key", "corrupt_header", "crash_dirs", "delete", "regenerated", "harmless_corruption_loaded"}},
 	{ID: "C11", Engine: "brokersim", Level: "exploration", QuickMS: 40000, ThoroughMS: 600000, SelftestRuns: 200,
 		Rule: layerARule, StateMeasure: layerAStates, Assumptions: layerAAssume, RealStub: layerAReal,
 		MustProbe: []string{"lines_delivered", "refused_refuse", "refused_silent", "line_arbitrary_bytes"}},
